@@ -3,7 +3,7 @@
 tier=${1:-quick}
 cd /verif
 fail=0
-for i in 01 02 03 04 05 06 07 08 09 10 11 12 13 14 15 16 17 18 19 20; do
+for i in ${CHECKS:-01 02 03 04 05 06 07 08 09 10 11 12 13 14 15 16 17 18 19 20}; do
   out=$(./check C$i $tier 2>&1); code=$?
   echo "$out" | grep -E "^(VIOLATION|HARNESS)" | cut -c1-200
   echo "$out" | grep -E "^KNOWN-FINDING" | wc -l | xargs -I{} echo "   known-finding lines: {}" | grep -v ": 0$"
